@@ -421,7 +421,10 @@ func (ro *RedisOutput) rdbReplay(ctx context.Context, pipe <-chan *rdb.BinEntry)
 		}
 
 		filterOut := false
-		if ro.outFilter.FilterDb(int(e.DB)) {
+		if e.ObjectParser != nil && !bisyncRdbEntryHasKey(e) {
+			// a function library or an aux field names no key and lives in no database : the key,
+			// slot and database rules do not apply to it
+		} else if ro.outFilter.FilterDb(int(e.DB)) {
 			filterOut = true
 		} else {
 			if tdb, ok := ro.selectDB(currentDB, int(e.DB)); ok {
